@@ -787,6 +787,8 @@ impl FileStateMachine {
         }
 
         std::fs::write(data_path, buf)?;
+        #[cfg(d_engine_verif)]
+        verif_crash_point("persist_data_sync:written", &self.data_dir);
         Ok(())
     }
 
@@ -846,6 +848,8 @@ impl FileStateMachine {
         file.write_all(&term.to_be_bytes())?;
 
         file.flush()?;
+        #[cfg(d_engine_verif)]
+        verif_crash_point("persist_metadata_sync:written", &self.data_dir);
         Ok(())
     }
 
